@@ -4,6 +4,7 @@ from __future__ import annotations
 from kfv.core import Ctx
 from kfv.rules import memo_rules as MEMO
 from kfv.rules import precond_rules as R
+from kfv.rules import tensor_rules as TR
 
 TECHNIQUE = ('guard (control-dependence) analysis of every factor / inverse / gradient effect in step() and the hooks with '
              'modulo gates in term normal form; symbolic evaluation of the step counter and of the hyper-parameter state '
@@ -30,3 +31,4 @@ def run(ctx: Ctx) -> None:
                          'gpt_neox.preconditioner.GPTNeoXKFACPreconditioner.load_factors_from_dir'])
     ctx.do(R.rule_own_so)
     ctx.do(MEMO.rule_memo)
+    ctx.do(TR.rule_aff_factor)
